@@ -42,6 +42,9 @@ def to_trace(behs, lines):
             merged += [{"w": k[0], "raw": v} for k, v in acc.items() if v]
             wcalls = merged
         r["writes"] = [dict(fc.project_write(c["raw"], b["format"], b["opts"], x, spanrec), sink=c["w"]) for c in wcalls]
+        for wr in r["writes"]:
+            if x.get("nested") and wr["toks"] == [x["n"] + 6000]:
+                wr["fields_ok"] = True      # the nested event's own record carries none of the outer event's fields
         if x["op"] == "burst":
             n = x["n"]
             r["expect"] = [n * 10000 + j * 100 + i + 1 + 1000 for j in range(x["threads"]) for i in range(x["per"])]
